@@ -40,6 +40,8 @@ enum Fail {
     InjectedWrite(FaultKind),
     /// a pure builtin called outside its domain (index into EDGE_CALLS)
     Edge(usize),
+    /// an I/O builtin called in a host that has the builtins but no effect backend
+    NoBackendIo,
     /// a read that returns more bytes than a binary may hold
     HugeRead,
     /// an I/O builtin called in a host that registers the I/O builtins for their signature only
@@ -126,6 +128,7 @@ fn victim_def(f: Fail, spin: u32, receives: bool) -> (String, bool) {
         Fail::FilterSelect => ("! [#'int { =q, z = ! [5], Ok }]".to_string(), false),
         Fail::Edge(k) => (format!("x = [{}], 0", EDGE_CALLS[k % EDGE_CALLS.len()]), false),
         Fail::HostlessIo(k) => (HOSTLESS_CALLS[k % HOSTLESS_CALLS.len()].to_string(), false),
+        Fail::NoBackendIo => ("f = [\"/x\" .0, 577, 420] __file_open__, 0".to_string(), false),
         Fail::HugeRead => ("f = [\"/huge\" .0, 0, 0] __file_open__, d = [f, 0, 20000000] __file_read__, d __binary_length__".to_string(), true),
     };
     (format!("victim = #'int {{ =n, {pre}w = [{spin}, 0] spin, {op} }}"), io)
@@ -159,6 +162,7 @@ impl Property for C15 {
         c.faults = scn.fixed_faults.clone();
         c.io_signatures_only = scn.family == "c15-HostlessIo";
         c.keep_session_after_error = scn.family == "c15-repl-kept-session";
+        c.no_effect_backend = scn.family == "c15-NoBackendIo";
         c
     }
     fn generate(&self, rng: &mut Rng, _tier: Tier) -> Scenario {
@@ -185,6 +189,8 @@ impl Property for C15 {
         ];
         let f = if rng.chance(1, 5) {
             Fail::Edge(rng.usize(EDGE_CALLS.len()))
+        } else if rng.chance(1, 40) {
+            Fail::NoBackendIo
         } else if rng.chance(1, 30) {
             Fail::HostlessIo(rng.usize(HOSTLESS_CALLS.len()))
         } else if rng.chance(1, 60) {
@@ -343,7 +349,7 @@ impl Property for C15 {
         // arrives (after a timed-out await, or inside a receive filter); outcome not judged
         let mut io_awaiters = false;
         // (not next to an injected-write victim: the fault plan counts backend requests)
-        if !matches!(f, Fail::InjectedWrite(_) | Fail::HostlessIo(_)) && rng.chance(1, 3) {
+        if !matches!(f, Fail::InjectedWrite(_) | Fail::HostlessIo(_) | Fail::NoBackendIo) && rng.chance(1, 3) {
             io_awaiters = true;
             if rng.chance(1, 2) {
                 body.push("r2 = &v @rel2".to_string());
